@@ -60,6 +60,20 @@ Definition osize (o : N) : N := min_alloc * 2 ^ o.        (* MinPossibleAllocati
    (nextPowerOf2GT8), count trailing zeros, subtract 3 *)
 Definition order_of_size (s : N) : N := N.log2_up (N.max s min_alloc) - 3.
 
+(* the same, as the Go code computes it: nextPowerOf2GT8 (the bit-smearing trick on uint32, wraps
+   written out) followed by bits.TrailingZeros32 of the resulting power of two (= its binary
+   logarithm) minus 3.  ProofsPow2.v proves it equal to [order_of_size] up to 32 MiB. *)
+Definition smear_step (x k : N) : N := N.lor x (N.shiftr x k).
+Definition next_pow2_gt8 (v : N) : N :=
+  if v <? 8 then 8 else
+  let x := (v + 4294967295) mod two32 in            (* v-- *)
+  let x := smear_step x 1 in let x := smear_step x 2 in let x := smear_step x 4 in
+  let x := smear_step x 8 in let x := smear_step x 16 in
+  (x + 1) mod two32.                                 (* v++ *)
+Definition order_from_size_go (size : N) : N :=
+  let size := if size <? min_alloc then min_alloc else size in
+  N.log2 (next_pow2_gt8 size) - 3.
+
 Inductive err :=
 | EPoisoned | EShrunk | ETooLarge | EHdrPtr | EReadHdr | EInvalidOrder | EOccInFree
 | EOOS | EGrow | EWriteHdr | EInvalidPtr | EEmptyHdr | EUnderflow | EPanic.
@@ -243,8 +257,10 @@ Definition disjoint_blocks (p s q t : N) : bool :=
 
 (* the would-be header of ptr lies (partly) in memory the allocator does not control:
    below the heap base, or in bytes the guest has stored to *)
+Definition wexempt (written : list N) (ptr : N) : bool :=
+  existsb (fun a => (ptr - header_size <=? a) && (a <? ptr)) written.
 Definition exempt (hb : N) (written : list N) (ptr : N) : bool :=
-  (ptr <? hb + header_size) || existsb (fun a => (ptr - header_size <=? a) && (a <? ptr)) written.
+  (ptr <? hb + header_size) || wexempt written ptr.
 
 Definition is_err (r : res) : bool := match r with RErr _ => true | _ => false end.
 
@@ -267,12 +283,15 @@ Definition track (hb : N) (g : ghost) (o : op) (ob : obs) : ghost :=
       | RErr _ => mkGhost (g_live g) (g_shadow g) (g_written g) true (g_void g) pg
       | _ => g
       end
-    else if exempt hb (g_written g) ptr then
-      (* the guest passed a pointer whose would-be header lies in bytes it controls *)
+    else if wexempt (g_written g) ptr then
+      (* the guest passed a pointer whose would-be header lies in bytes it stored itself *)
       mkGhost (g_live g) (g_shadow g) (g_written g) (g_dead g) true pg
     else
       match o_res ob with
       | RErr _ => mkGhost (g_live g) (g_shadow g) (g_written g) true (g_void g) pg
+      | ROk => if ptr <? hb + header_size
+               then mkGhost (g_live g) (g_shadow g) (g_written g) (g_dead g) true pg   (* header below the heap *)
+               else g
       | _ => g
       end
   | OWrite a v =>
